@@ -125,6 +125,7 @@ func (fc *FnCtx) execBlock(st *State, stmts []ast.Stmt) *State {
 			return nil
 		}
 		st = fc.exec(st, s, "")
+		fc.maintainCheck(st, s)
 	}
 	return st
 }
@@ -677,7 +678,10 @@ func (fc *FnCtx) modified(nodes ...ast.Node) *modSet {
 			}
 			if id, ok := root.(*ast.Ident); ok {
 				if o := fc.pkg.TypesInfo.ObjectOf(id); o != nil {
-					ms.vars[o] = true
+					// p.f = v through a pointer variable changes the object, not the variable
+					if _, isPtr := o.Type().Underlying().(*types.Pointer); !isPtr {
+						ms.vars[o] = true
+					}
 				}
 			}
 		case *ast.IndexExpr:
@@ -693,8 +697,11 @@ func (fc *FnCtx) modified(nodes ...ast.Node) *modSet {
 			}
 		case *ast.StarExpr:
 			ms.objs = true
-			ms.heap = true
-			ms.unknownWrite = true
+			// *p = v writes byte cells only when p points at a byte; a slice header or a struct lives in an object
+			if pt, ok := fc.typeOf(x.X).Underlying().(*types.Pointer); !ok || isByteElem(pt.Elem()) {
+				ms.heap = true
+				ms.unknownWrite = true
+			}
 		}
 	}
 	for _, n := range nodes {
